@@ -29,7 +29,7 @@ def run(tier: str) -> int:
     rejects, consumed, wall = validate_traces("ConvertTrace", "ConvertTrace", recs, tag=f"c08-{tier}")
     chk.add_traces(recs, rejects)
     chk.nontrivial = len({(x["conv"], x["cls"], str(x["src"])) for x in recs if x["src"]})
-    chk.rule = ("TLC enumerates every source history (filter, sort_rev, append, stack_write, rate, deepcopy; depth<=Depth; 0..3 rows) "
+    chk.rule = ("TLC enumerates every source history (filter, filter_mid, sort_rev, append, stack_write, rate, deepcopy; depth<=Depth; 0..3 rows) "
                 "followed by convert and emits it; each is replayed for the 16 converters and convert_merge on charts / sets "
                 "with hits, holds, tempo points and SVs. non-trivial = distinct (converter, history, source chart)")
     for x in recs:
